@@ -39,7 +39,7 @@ R = Run("C10",
         "float/int scalar and array, float32/int32 arrays; non-trivial = (system, unit, data kind) distinct "
         "and the unit is not already the system's unit for its dimension",
         "atoms x built-in systems x 6 data kinds exhaustive; compounds and user systems sampled (quick: "
-        "~90 pinned + 200 random compounds, 8 pinned + 8 random user systems; thorough: 3000 random "
+        "~90 pinned + 150 random compounds, 10 pinned + 8 random user systems; thorough: 3000 random "
         "compounds, 80 random systems); base-unit spellings: every table atom of each base dimension x "
         "symbol/alias/Unit/quantity; wrong-dimension base units: every slot x every table atom")
 
@@ -101,7 +101,7 @@ def atom_names(u):
 def sig(u):
     """(coefficient, {atom: exponent}) of a unit expression"""
     c, m = u.expr.as_coeff_Mul()
-    return float(c), {str(k): sympy.nsimplify(v) for k, v in m.as_powers_dict().items() if k != 1}
+    return float(c), {str(k): round(float(v), 9) for k, v in m.as_powers_dict().items() if k != 1}
 
 
 def same_unit(u, v):
@@ -325,7 +325,7 @@ def replay_for(sp, ustr, kind, body):
     pre += "q = %s(%s, unyt.Unit(%r%s))\n" % (ctor, vsrc, ustr, reg)
     pre += "SYS = %s\n" % sp.ref_src
     pre += ("def sig(u):\n    c, m = u.expr.as_coeff_Mul()\n"
-            "    return {str(k): str(v) for k, v in m.as_powers_dict().items() if k != 1}, float(c)\n"
+            "    return {str(k): round(float(v), 9) for k, v in m.as_powers_dict().items() if k != 1}, float(c)\n"
             "def same(u, v):\n    return sig(u)[0] == sig(v)[0] and abs(sig(u)[1] - sig(v)[1]) <= 1e-12*abs(sig(v)[1])\n")
     return replay_script(pre + body)
 
@@ -370,7 +370,10 @@ def check(sp, ustr, kind, full=True):
     ref = sp.ref
     call = (lambda o, m: getattr(o, m)(ref)) if ref is not None else (lambda o, m: getattr(o, m)())
     st, r = safe(call, q, "in_base")
-    # the input is never modified by the copying variant
+    # the copying variant returns fresh data and never modifies its input
+    if st == "ok" and np.ndim(q0) and np.shares_memory(np.asarray(r), np.asarray(q)):
+        fail("C10[in_base-aliases-input:%s]" % fam, "(%s).in_base(%s) shares memory with its input" % (ustr, sp.label),
+             replay_for(sp, ustr, kind, GET_R + "sys.exit(1 if np.shares_memory(np.asarray(r), np.asarray(q)) else 0)\n"))
     if not (np.array_equal(q.d, q0.d) and q.units.expr == q0.units.expr and q.dtype == q0.dtype):
         fail("C10[in_base-mutates-input:%s]" % fam, "%s %s in_base(%s) changed its input to %r" % (
             kind, ustr, sp.label, q),
@@ -430,10 +433,11 @@ def check(sp, ustr, kind, full=True):
              replay_for(sp, ustr, kind, GET_R + "sys.exit(1 if r.units.dimensions != q.units.dimensions else 0)\n"))
     # (2) atoms
     allowed = sp.allowed_atoms(Dr)
-    canon_ok = em is not None and sp.cls in ("cgs", "mks")
+    # the documented pairing table names the canonical counterpart in the two systems it is
+    # defined between: SI unit -> Gaussian canonical unit in cgs, Gaussian unit -> SI canonical in mks
+    canon_ok = em is not None and ((sp.cls == "cgs" and em[0] == "si->gauss") or
+                                   (sp.cls == "mks" and em[0] == "gauss->si"))
     if canon_ok:
-        # the documented pairing table names the canonical counterpart in the two systems
-        # it is defined between
         allowed = allowed | {em[1][3] if em[0] == "si->gauss" else em[1][2]}
     got = atom_names(ru)
     expu, _ = sp.expected(Dr)
@@ -614,8 +618,8 @@ PINNED_USERS = [
     dict(name="c10_atomic", base={dm.length: "nm", dm.mass: "mp", dm.time: "fs", dm.temperature: "nK",
                                   dm.angle: "rad"}, declared={"energy": "eV"}),
     dict(name="c10_unitobj", base={dm.length: "Mpc", dm.mass: "Msun", dm.time: "s"}, how="unit"),
-    dict(name="c10_quant", base={dm.length: "Mpc", dm.mass: "Msun", dm.time: "s"}, how="quantity",
-         coef={dm.length: 3.0, dm.mass: 0.8, dm.time: 42.0}),
+    dict(name="c10_quant", base={dm.length: "Mpc", dm.mass: "Msun", dm.time: "s", dm.current_mks: "A"},
+         how="quantity", coef={dm.length: 3.0, dm.mass: 0.8, dm.time: 42.0, dm.current_mks: 0.5}),
     dict(name="c10_alias", base={dm.length: "kilometer", dm.mass: "gram", dm.time: "minute",
                                  dm.temperature: "kelvin", dm.angle: "deg"}),
     dict(name="c10_nocur", base={dm.length: "mm", dm.mass: "mg", dm.time: "ms", dm.current_mks: None}),
@@ -628,8 +632,8 @@ PINNED_USERS = [
          declared={"energy": "erg", "velocity": "km/s", "pressure": "bar", "magnetic_field_mks": "mT",
                    "charge_mks": "mA*hr", "force": "kip", "frequency": "1/min", "area": "ha",
                    "magnetic_field_cgs": "G", "power": "hp"}),
-    dict(name="c10_offsetbase", base={dm.length: "m", dm.mass: "kg", dm.time: "s", dm.temperature: "degC",
-                                      dm.angle: "lat"}, cls="user-offsetbase"),
+    dict(name="c10_offsetbase", base={dm.length: "m", dm.mass: "kg", dm.time: "s", dm.temperature: "degC"},
+         cls="user-offsetbase"),
 ]
 
 
@@ -649,7 +653,9 @@ def random_user_args(rng, i):
                 continue
             if r < 0.6:
                 continue
-        cands = [a for a in by_dim[d] if a not in OFFSET_ATOMS]
+        # delta_degC / delta_degF as Unit objects are a known rejected spelling (exhaustively covered by
+        # task_spellings under its own key); keep the random systems constructible
+        cands = [a for a in by_dim[d] if a not in OFFSET_ATOMS and not a.startswith("delta_")]
         a = rng.choice(cands)
         if LUT[a][4] and rng.random() < 0.5:
             a = rng.choice(list(unit_prefixes)) + a
@@ -684,15 +690,19 @@ def run_units(sp, units, kinds_full, kinds_light=()):
             first = False
 
 
-def task_builtin(i, compounds, thorough):
+def task_builtin(i, part, compounds, thorough):
     sp = BUILTIN[i]
-    run_units(sp, ATOMS, ["f-scalar", "i-array", "f32-array", "i32-array"], ["f-array", "i-scalar"])
-    run_units(sp, PREFIXED_EM, ["f-scalar"], ["i-array"] if thorough else [])
-    run_units(sp, compounds, ["f-array"], ["i-scalar"] if thorough else [])
-    # code units converted to the built-in system
-    reg = make_code_registry()
-    sp2 = Spec(sp.cls, sp.ref, {}, registry=reg, label=sp.label + "+codereg", reg_src=CODE_REG_SRC).like(sp)
-    run_units(sp2, CODE_UNITS, ["f-scalar"], ["i-array"])
+    if part == "atoms":
+        run_units(sp, ATOMS, ["f-scalar", "i-array"], ["f-array", "i-scalar"])
+        run_units(sp, ATOMS if thorough else F32_ATOMS, ["f32-array", "i32-array"])
+    elif part == "em":
+        run_units(sp, PREFIXED_EM, ["f-scalar"], ["i-array"] if thorough else [])
+        # code units converted to the built-in system
+        reg = make_code_registry()
+        sp2 = Spec(sp.cls, sp.ref, {}, registry=reg, label=sp.label + "+codereg", reg_src=CODE_REG_SRC).like(sp)
+        run_units(sp2, CODE_UNITS, ["f-scalar"], ["i-array"])
+    else:
+        run_units(sp, compounds, ["f-array"], ["i-scalar"] if thorough else [])
 
 
 def task_user(args, compounds, thorough, pinned):
@@ -894,7 +904,7 @@ def run_task(i):
 def main():
     rng = R.rng
     thorough = R.thorough
-    n_comp = 3000 if thorough else 200
+    n_comp = 3000 if thorough else 150
     n_sys = 80 if thorough else 8
     compounds = list(PINNED_COMPOUNDS)
     seen = set(compounds)
@@ -906,12 +916,13 @@ def main():
     few = compounds[:len(PINNED_COMPOUNDS)]
 
     for i in range(len(BUILTIN)):
-        TASKS.append((task_builtin, (i, compounds, thorough)))
+        for part in ("atoms", "em", "compounds"):
+            TASKS.append((task_builtin, (i, part, compounds, thorough)))
     for a in PINNED_USERS:
-        TASKS.append((task_user, (a, compounds, thorough, True)))
+        TASKS.append((task_user, (a, compounds if thorough else compounds[:len(few) + 60], thorough, True)))
     for i in range(n_sys):
         a = random_user_args(rng, i)
-        some = few + rng.sample(compounds[len(few):], min(40 if not thorough else 400, n_comp))
+        some = few + rng.sample(compounds[len(few):], min(25 if not thorough else 400, n_comp))
         TASKS.append((task_user, (a, some, thorough, False)))
     for which in ("code", "code-obj", "code-ds", "code-default", "cgs-default"):
         TASKS.append((task_code, (which, compounds, thorough)))
@@ -920,7 +931,7 @@ def main():
     TASKS.append((task_wrong_dimension, (thorough,)))
 
     ctx = mp.get_context("fork")
-    with ctx.Pool(min(14, len(TASKS)), maxtasksperchild=1) as pool:
+    with ctx.Pool(min(16, len(TASKS)), maxtasksperchild=1) as pool:
         results = pool.map(run_task, range(len(TASKS)), chunksize=1)
     skipped = 0
     for i, cases, fails, notes, nskip in sorted(results):
